@@ -148,6 +148,10 @@ func (mediaType *MediaType) Validate(ctx context.Context, opts ...ValidationOpti
 					if err := v.Validate(ctx); err != nil {
 						return fmt.Errorf("example %s: %w", k, err)
 					}
+					if v.Value.Value == nil && v.Value.ExternalValue != "" {
+						// the example lives elsewhere: there is no embedded value to check
+						continue
+					}
 					if err := validateExampleValue(ctx, v.Value.Value, schema.Value); err != nil {
 						return fmt.Errorf("example %s: %w", k, err)
 					}
